@@ -412,6 +412,21 @@ structure SInv (d : Bytes) (r : Rd) (n : Nat) : Prop where
   /-- exactly one block is held between calls; `blocks_highest` never exceeds 2 -/
   hblocks : r.blocks = if n = 0 then [] else [(n - 1, blockAt d r.bs (n - 1))]
   hhigh : r.high ≤ 2
+  /-- `drop_data` is on (as `new` leaves it): the look-back drop takes effect -/
+  hdd : r.dropData = true
+
+theorem dropBlock_on (r : Rd) (k : Nat) (h : r.dropData = true) :
+    dropBlock r k = { r with blocks := mdel r.blocks k, lru := mdel r.lru k } := by
+  simp [dropBlock, h]
+
+theorem dropBlock_off (r : Rd) (k : Nat) (h : r.dropData = false) : dropBlock r k = r := by
+  simp [dropBlock, h, DROP_BLOCK_GUARDED_BY_DROP_DATA]
+
+theorem dropBlock_kind (r : Rd) (k : Nat) : (dropBlock r k).kind = r.kind := by
+  unfold dropBlock; split <;> rfl
+
+theorem dropBlock_bs (r : Rd) (k : Nat) : (dropBlock r k).bs = r.bs := by
+  unfold dropBlock; split <;> rfl
 
 theorem blockAt_ne_nil (d : Bytes) (bs k : Nat) (hbs : 1 ≤ bs) (hd : d ≠ [])
     (hk : k ≤ blockOffsetLast d.length bs) : blockAt d bs k ≠ [] := by
@@ -435,7 +450,7 @@ theorem SInv.step {d : Bytes} {r : Rd} {n : Nat} (h : SInv d r n) (hd : d ≠ []
       simp [afterDecode]
     rw [e]
     refine ⟨⟨h.hbs, h.hfsz, hok, ?_, ?_, ?_, hrest, ?_, ?_, by intro j hj; omega,
-      keys_lruPut (keys_mono h.hlruKeys (by omega)) 0 _ (by omega), ?_, ?_⟩, rfl⟩
+      keys_lruPut (keys_mono h.hlruKeys (by omega)) 0 _ (by omega), ?_, ?_, h.hdd⟩, rfl⟩
     rotate_right 2
     · have hb0 := h.hblocks
       simp only [if_true] at hb0
@@ -459,7 +474,7 @@ theorem SInv.step {d : Bytes} {r : Rd} {n : Nat} (h : SInv d r n) (hd : d ≠ []
     have e : afterDecode r n (n - 1) (blockAt d r.bs n) dec'
         = dropBlock (storeLru (storeBlock { r with dec := dec' } n (blockAt d r.bs n)) n (blockAt d r.bs n)) (n - 1) := by
       simp [afterDecode, READ_BLOCK_LOOKBACK_DROP, hlt]
-    rw [e]
+    rw [e, dropBlock_on _ _ (by exact h.hdd)]
     have hb0 := h.hblocks
     rw [if_neg h0] at hb0
     have e1 : (n - 1 != n) = true := by simp; omega
@@ -492,7 +507,7 @@ theorem SInv.step {d : Bytes} {r : Rd} {n : Nat} (h : SInv d r n) (hd : d ≠ []
       simp only [S4V.Model.Stream.mins, mdel, List.filter, e1, List.length_cons, List.length_nil]
       omega
     refine ⟨⟨h.hbs, h.hfsz, hok, g1, g2, ?_, hrest, g4, g5, g6,
-      keys_mdel (keys_lruPut (keys_mono h.hlruKeys (by omega)) n _ (by omega)) _, g7, g8⟩, rfl⟩
+      keys_mdel (keys_lruPut (keys_mono h.hlruKeys (by omega)) n _ (by omega)) _, g7, g8, h.hdd⟩, rfl⟩
     intro j
     simp only [dropBlock, storeLru, storeBlock, hnot, if_false]
     exact g3 j
@@ -546,10 +561,10 @@ theorem streamLoop_decode (d : Bytes) (hd : d ≠ []) :
     by_cases hnk : n = k
     · subst hnk
       rw [if_pos rfl]
-      exact ⟨_, rfl, hstep, hbs', by simp [afterDecode]; split <;> rfl⟩
+      exact ⟨_, rfl, hstep, hbs', by simp only [afterDecode]; split <;> simp [dropBlock_kind, storeLru, storeBlock]⟩
     · rw [if_neg hnk]
       have hkind : (afterDecode r n (n - 1) (blockAt d r.bs n) s').kind = r.kind := by
-        simp [afterDecode]; split <;> rfl
+        simp only [afterDecode]; split <;> simp [dropBlock_kind, storeLru, storeBlock]
       obtain ⟨r', f1, f2, f3, f4⟩ := ih (afterDecode r n (n - 1) (blockAt d r.bs n) s') (n + 1) k hstep
         (by omega) (by rw [hbs']; exact h2) (by omega)
       rw [Nat.add_sub_cancel, hbs'] at f1
@@ -610,7 +625,7 @@ theorem readBlock_stream (d : Bytes) (r : Rd) (n k : Nat) (h : SInv d r n) (hord
         have hkn := h.hlruKeys _ (mget_some_mem hl)
         exact ⟨{ r with lru := mins r.lru k (blockAt d r.bs k) }, n, rfl,
           ⟨h.hbs, h.hfsz, h.hk, h.good, h.goodL.mins k _ rfl e2, h.hread, h.hpos, h.htop, h.hn, h.hdropped,
-            keys_mins h.hlruKeys k _ hkn, h.hblocks, h.hhigh⟩, rfl, hord, fun _ _ => by simp at hkn; omega⟩
+            keys_mins h.hlruKeys k _ hkn, h.hblocks, h.hhigh, h.hdd⟩, rfl, hord, fun _ _ => by simp at hkn; omega⟩
       | none =>
         simp only
         by_cases hm : k ∈ r.blocksRead
@@ -620,7 +635,7 @@ theorem readBlock_stream (d : Bytes) (r : Rd) (n k : Nat) (h : SInv d r n) (hord
           simp only
           exact ⟨storeLru r (n - 1) (blockAt d r.bs (n - 1)), n, rfl,
             ⟨h.hbs, h.hfsz, h.hk, h.good, h.goodL.lruPut _ _ rfl (blockAt_ne_nil d r.bs _ h.hbs hd (h.hn hnp)),
-              h.hread, h.hpos, h.htop, h.hn, h.hdropped, keys_lruPut h.hlruKeys _ _ (by omega), h.hblocks, h.hhigh⟩, rfl, by omega,
+              h.hread, h.hpos, h.htop, h.hn, h.hdropped, keys_lruPut h.hlruKeys _ _ (by omega), h.hblocks, h.hhigh, h.hdd⟩, rfl, by omega,
               fun _ _ => by omega⟩
         · have hkn : n ≤ k := by
             rcases Nat.lt_or_ge k n with hh | hh
@@ -710,16 +725,16 @@ theorem SInv.new (kind : Kind) (bs : Nat) (d : Bytes) (cs csPre : List Nat) (hbs
   rcases hk with rfl | rfl | rfl | ⟨rfl, hf⟩
   · exact ⟨⟨hbs, rfl, Or.inl rfl, Good.nil _ _, Good.nil _ _, by intro j; simp [Rd.new], by simp [Rd.new],
       by intro h; omega, by intro h; omega, by intro j h; omega,
-      by intro p hp; simp [Rd.new] at hp, by simp [Rd.new], by simp [Rd.new]⟩, rfl⟩
+      by intro p hp; simp [Rd.new] at hp, by simp [Rd.new], by simp [Rd.new], rfl⟩, rfl⟩
   · exact ⟨⟨hbs, hcount, Or.inr (Or.inl rfl), Good.nil _ _, Good.nil _ _, by intro j; simp [Rd.new],
       by simp [Rd.new], by intro h; omega, by intro h; omega, by intro j h; omega,
-      by intro p hp; simp [Rd.new] at hp, by simp [Rd.new], by simp [Rd.new]⟩, rfl⟩
+      by intro p hp; simp [Rd.new] at hp, by simp [Rd.new], by simp [Rd.new], rfl⟩, rfl⟩
   · exact ⟨⟨hbs, hcount, Or.inr (Or.inr (Or.inl rfl)), Good.nil _ _, Good.nil _ _, by intro j; simp [Rd.new],
       by simp [Rd.new], by intro h; omega, by intro h; omega, by intro j h; omega,
-      by intro p hp; simp [Rd.new] at hp, by simp [Rd.new], by simp [Rd.new]⟩, rfl⟩
+      by intro p hp; simp [Rd.new] at hp, by simp [Rd.new], by simp [Rd.new], rfl⟩, rfl⟩
   · exact ⟨⟨hbs, hcount, Or.inr (Or.inr (Or.inr ⟨rfl, hf⟩)), Good.nil _ _, Good.nil _ _, by intro j; simp [Rd.new],
       by simp [Rd.new], by intro h; omega, by intro h; omega, by intro j h; omega,
-      by intro p hp; simp [Rd.new] at hp, by simp [Rd.new], by simp [Rd.new]⟩, rfl⟩
+      by intro p hp; simp [Rd.new] at hp, by simp [Rd.new], by simp [Rd.new], rfl⟩, rfl⟩
 
 /-! ### the plain reader -/
 
